@@ -208,7 +208,33 @@ func c18(c *Ctx) {
 			}
 			// compile-time faults appended at the end of some otherwise valid histories
 			if rng.Chance(15) {
-				switch rng.Intn(7) {
+				switch rng.Intn(11) {
+				case 7, 8:
+					// a frameless function that writes the base pointer, without and with stack locals
+					ctx.Function("pf")
+					ctx.Attributes(attr.NOSPLIT | attr.NOFRAME)
+					passFault = "NOFRAME function writes the base pointer"
+					if rng.Bool() {
+						ctx.AllocLocal(16)
+						passFault += " (with locals)"
+					}
+					ctx.MOVQ(operand.U32(1), reg.RBP)
+					ctx.RET()
+				case 9, 10:
+					// the faulty function is not the last one of the file
+					ctx.Function("pf")
+					if rng.Bool() {
+						ctx.JMP(operand.LabelRef("undefined"))
+						passFault = "undefined label, in a function followed by a valid one"
+					} else {
+						ctx.Attributes(attr.NOSPLIT | attr.NOFRAME)
+						ctx.MOVQ(operand.U32(1), reg.RBP)
+						ctx.RET()
+						passFault = "NOFRAME function writes the base pointer, followed by a valid function"
+					}
+					ctx.Function("fine")
+					ctx.MOVQ(operand.U32(1), reg.RAX)
+					ctx.RET()
 				case 6:
 					// five simultaneously live high-byte registers: only AH, CH, DH, BH exist
 					ctx.Function("pf")
